@@ -33,6 +33,7 @@ func (fr *Frame) call(instr ssa.Instruction, cc *ssa.CallCommon, st *State, reac
 	fr.callsiteChecks(cc, args, st, reach, pos)
 	if _, isBuiltin := cc.Value.(*ssa.Builtin); !isBuiltin {
 		fr.countCall(fr.callName(cc, pos), st)
+		fr.countCall(fr.callQualName(pos), st)
 	}
 	if cc.IsInvoke() {
 		recv := fr.val(cc.Value, st)
@@ -516,6 +517,14 @@ func (fr *Frame) goStmt(x *ssa.Go, st *State, reach string) {
 	cc := x.Common()
 	// calls(goK): how often the K-th go statement (in source order) of this function has been executed
 	fr.countCall(fmt.Sprintf("go%d", fr.goOrdinal(x)), st)
+	{
+		// `callsite <closure or function name> requires ...` clauses also apply to go statements
+		var gargs []Val
+		for _, a := range cc.Args {
+			gargs = append(gargs, fr.val(a, st))
+		}
+		fr.callsiteChecks(cc, gargs, st, reach, x.Pos())
+	}
 	if callee, ok := cc.Value.(*ssa.Function); ok {
 		if ct := c.eng.contractOf(callee); ct != nil {
 			var args []Val
@@ -573,6 +582,7 @@ func (fr *Frame) runDefers(st *State, reach string) {
 		resT := d.cc.Signature().Results()
 		if _, isBuiltin := d.cc.Value.(*ssa.Builtin); !isBuiltin {
 			fr.countCall(fr.callName(d.cc, d.instr.Pos()), st) // a deferred call counts when it runs
+			fr.countCall(fr.callQualName(d.cc.Pos()), st)
 		}
 		if d.cc.IsInvoke() {
 			fr.invoke(d.cc, d.fn, d.args, resT, st, r, d.instr.Pos())
@@ -627,12 +637,19 @@ func (c *FnCtx) chanSend(fr *Frame, st *State, reach string, cht types.Type, ch 
 				continue
 			}
 			env := fr.env(st)
+			if len(fr.params) > 0 {
+				env.names["self"] = fr.params[0] // the receiver / first parameter, should it be called ch as well
+			}
 			env.names["ch"] = Val{T: cht, Term: ch}
 			vv := v
 			if vv.Term == "" {
 				vv.Term = c.termOf(v)
 			}
 			env.names["val"] = vv
+			if env.bound == nil {
+				env.bound = map[string]bool{}
+			}
+			env.bound["ch"], env.bound["val"], env.bound["self"] = true, true, true
 			for _, cj := range conjuncts(cl.Expr) {
 				t, err := env.evalBool(cj)
 				if err != nil {
@@ -713,6 +730,10 @@ func (fr *Frame) recvAssume(st *State, cond string, cht types.Type, ch string, v
 			vv.Term = c.termOf(v)
 		}
 		env.names["val"] = vv
+		if env.bound == nil {
+			env.bound = map[string]bool{}
+		}
+		env.bound["ch"], env.bound["val"] = true, true
 		t, err := env.evalBool(cl.Expr)
 		if err != nil {
 			fr.bindFailure(cl, err)
@@ -930,7 +951,13 @@ func (fr *Frame) appendOne(args []Val, v Val, resT types.Type, st *State) Val {
 // obligations at every call of a function or method with that name; e is evaluated with the
 // callee's parameter names bound to the arguments (and the caller's own names available).
 func (fr *Frame) callsiteChecks(cc *ssa.CallCommon, args []Val, st *State, reach string, pos token.Pos) {
-	if fr.contract == nil {
+	ct := fr.contract
+	if ct == nil && fr.fn != nil && fr.fn.Parent() != nil && fr.c.contract != nil && fr.fn.Parent() == fr.c.fn {
+		// a closure of the function under verification that has no contract of its own and is executed inline
+		// (a deferred func(){...}()): the enclosing function's call-site clauses apply to its calls too
+		ct = fr.c.contract
+	}
+	if ct == nil {
 		return
 	}
 	var name string
@@ -954,7 +981,7 @@ func (fr *Frame) callsiteChecks(cc *ssa.CallCommon, args []Val, st *State, reach
 	} else {
 		return
 	}
-	for _, cl := range fr.contract.clauses("callsite") {
+	for _, cl := range ct.clauses("callsite") {
 		if cl.Label != name {
 			if j := strings.Index(cl.Label, "["); j > 0 && strings.HasSuffix(cl.Label, "]") {
 				// Name[text]: the calls of Name whose source text contains `text` (robust against reordering of calls)
@@ -1067,6 +1094,25 @@ func (fr *Frame) callName(cc *ssa.CallCommon, pos token.Pos) string {
 		t = t[i+1:]
 	}
 	return strings.TrimSpace(t)
+}
+
+// callQualName: "recv.Name" for a method or field call written x.y.recv.Name(...): lets contracts tell wg.Done from ctx.Done.
+func (fr *Frame) callQualName(pos token.Pos) string {
+	t := fr.c.eng.srcText(pos, "call")
+	if i := strings.Index(t, "("); i > 0 {
+		t = t[:i]
+	}
+	parts := strings.Split(strings.TrimSpace(t), ".")
+	if len(parts) < 2 {
+		return ""
+	}
+	q := parts[len(parts)-2] + "." + parts[len(parts)-1]
+	for _, r := range q {
+		if !(r == '.' || r == '_' || r >= '0' && r <= '9' || r >= 'a' && r <= 'z' || r >= 'A' && r <= 'Z') {
+			return ""
+		}
+	}
+	return q
 }
 
 func (fr *Frame) countCall(name string, st *State) {
